@@ -453,4 +453,9 @@ def ePastWake (s : RState) : Bool :=
     (s.epc = .setDropped || s.epc = .clearShared || s.epc = .dropFuture || s.epc = .dropSlot ||
      s.epc = .dec || s.epc = .last || s.epc = .done)
 
+/-- the wake-delivery statement of C04 for one state: a handle whose last poll returned Pending with
+waker `w` has been woken once the task has completed and the executor is past the wake decision -/
+def deliveryStatement (s : RState) : Prop :=
+  ∀ w : Nat, s.parked = some w → TaskState.isCompleted s.word = true → ePastWake s = true → w ∈ s.woken
+
 end Compio.RemoteJoin
